@@ -17,6 +17,9 @@ let op_of_json j =
   | [JStr "clean"; cl; nl] -> OpClean (jz cl, jz nl)
   | [JStr "add"; b] -> OpAdd (blob_of_json b)
   | [JStr "delete"; hs] -> OpDelete (Stdlib.List.map jn (jlist hs))
+  | [JStr "hide"; hs] -> OpHide (Stdlib.List.map jn (jlist hs))
+  | [JStr "restore"; hs] -> OpRestore (Stdlib.List.map jn (jlist hs))
+  | [JStr "setup"; now; sizes] -> OpSetup (jn now, Stdlib.List.map pair_of_json (jlist sizes))
   | JStr "status" :: _ -> OpStatus
   | _ -> raise (Model_error "op: expected [pass, net, limit] | [clean, cl, nl] | [add, blob] | [delete, ids] | [status, what]")
 let json_of_blob b = JArr [of_n b.b_hash; of_n b.b_len; of_n b.b_added; of_bool b.b_mine; of_bool b.b_fin]
